@@ -18,7 +18,7 @@ RULE = ("exhaustive: every dataset of n <= 10 (quick: n <= 7) sorted entries x a
         "genome pipelines (pileup histogram / sum / mask / values under intervals / merged; 1-4 chromosomes, some empty). "
         "Non-trivial = at least 2 chunks and (a cut inside a group, or a single-entry chunk, or a short last chunk)")
 EXHAUSTIVE = {"quick": True, "thorough": True}
-MODEL_OPS = {"mean", "bincount", "histogram", "count_kmers", "groupby", "chunk_entries", "chunk_lines", "graph"}
+MODEL_OPS = {"mean", "bincount", "histogram", "count_kmers", "groupby", "chunk_entries", "chunk_lines", "graph", "graph_many", "pipeline"}
 ASSUMPTIONS = [
     "per-chunk functions are NumPy externals (np.bincount, np.histogram with explicit edges, np.sum) modelled by their list-level meaning",
     "itertools.groupby / itertools.chain merge consecutive equal keys (modelled as joinGroups)",
@@ -140,6 +140,35 @@ def _graphs_fixed():
     ]
 
 
+def _many_fixed():
+    """(comps over streams 0 (a) and 1 (b), roots, mode): reductions (alone / several together, sharing
+    sub-expressions, created before and after other nodes) and several roots computed together"""
+    N, C = (lambda i: {"node": i}), (lambda c: {"const": c})
+    R = lambda f, i, **kw: dict({"f": f, "a": N(i), "b": C(0)}, **kw)
+    E = [0, 2, 4, 6, 8]
+    return [
+        ([("mul", N(0), C(2)), ("add", N(2), C(1)), R("sum", 3)], [4], "reduce"),
+        ([("add", N(0), C(1)), R("sumN", 2)], [3], "reduce"),
+        ([R("hist", 0, edges=E)], [2], "reduce"),
+        ([R("hist", 0, edges=E), R("sum", 0)], [2, 3], "reduce"),
+        ([R("hist", 0, edges=E), ("add", N(0), N(1)), R("sum", 3), R("sumN", 1), R("hist", 3, edges=[0, 50, 100, 200])],
+         [2, 4, 5, 6], "reduce"),
+        ([("add", N(0), C(1)), ("mul", N(0), C(2)), ("add", N(3), N(2))], [2, 3, 4], "concat"),
+        ([("add", N(0), N(1)), ("mul", N(2), N(0))], [3, 0, 2], "concat"),
+        ([("sub", N(1), N(0))], [2], "concat"),
+    ]
+
+
+def _mk_many(chunks_a, chunks_b, comps, roots, mode):
+    nodes = [{"k": "stream", "chunks": chunks_a}, {"k": "stream", "chunks": chunks_b}]
+    for cdef in comps:
+        if isinstance(cdef, dict):
+            nodes.append(dict({"k": "comp"}, **cdef))
+        else:
+            nodes.append({"k": "comp", "f": cdef[0], "a": cdef[1], "b": cdef[2]})
+    return {"op": "graph_many", "nodes": nodes, "roots": roots, "mode": mode}
+
+
 def _mk_graph(chunks_a, chunks_b, comps, root):
     nodes = [{"k": "stream", "chunks": chunks_a}, {"k": "stream", "chunks": chunks_b}]
     for f, a, b in comps:
@@ -188,11 +217,8 @@ def cases(tier, rng):
                 a, b = VALS[:n], [10 * v + 1 for v in VALS2[:n]]
                 for comps, root in _graphs_fixed():
                     yield _mk_graph(_cut(a, mask), _cut(b, mask), comps, root)
-                yield {"op": "graph_reduce", "chunks": _cut(a, mask), "reduce": "sum"}
-                yield {"op": "graph_reduce", "chunks": _cut(a, mask), "reduce": "mean"}
-                yield {"op": "graph_reduce", "chunks": _cut(a, mask), "reduce": "hist"}
-                yield {"op": "graph_reduce", "chunks": _cut(a, mask), "reduce": "hist+sum"}
-                yield {"op": "graph_multi", "chunks": _cut(a, mask)}
+                for comps, roots, mode in _many_fixed():
+                    yield _mk_many(_cut(a, mask), _cut(b, mask), comps, roots, mode)
     # 2. seeded random: larger datasets, sampled cut sets
     R = 1500 if big else 150
     for _ in range(R):
@@ -239,9 +265,24 @@ def cases(tier, rng):
                 if rng.random() < 0.3:
                     a, b = b, a
                 nodes.append({"k": "comp", "f": rng.choice(["add", "sub", "mul"]), "a": a, "b": b})
-            yield {"op": "graph", "nodes": nodes, "root": rng.randrange(len(nodes)) if rng.random() < 0.4 else len(nodes) - 1}
+            if rng.random() < 0.5:
+                yield {"op": "graph", "nodes": nodes, "root": rng.randrange(len(nodes)) if rng.random() < 0.4 else len(nodes) - 1}
+            elif rng.random() < 0.5:
+                roots = [rng.randrange(len(nodes)) for _ in range(rng.randrange(1, 4))]
+                yield {"op": "graph_many", "nodes": nodes, "roots": roots, "mode": "concat"}
+            else:
+                ew = len(nodes)
+                roots = []
+                for _ in range(rng.randrange(1, 4)):
+                    f = rng.choice(["sum", "sumN", "hist"])
+                    nd = {"k": "comp", "f": f, "a": {"node": rng.randrange(ew)}, "b": {"const": 0}}
+                    if f == "hist":
+                        nd["edges"] = sorted(rng.sample(range(-30, 60), rng.randrange(2, 6)))
+                    nodes.append(nd)
+                    roots.append(len(nodes) - 1)
+                yield {"op": "graph_many", "nodes": nodes, "roots": roots, "mode": "reduce"}
     # 3. stream=True genome pipelines evaluated with compute
-    P = 1200 if big else 120
+    P = 4000 if big else 400
     for _ in range(P):
         nchrom = rng.randrange(1, 5)
         sizes = [rng.randrange(3, 13) for _ in range(nchrom)]
@@ -277,6 +318,8 @@ def nontrivial(c):
         return False
     if any(len(x) == 1 for x in ch) or len(ch[-1]) < len(ch[0]):
         return True
+    if c["op"] == "graph_many":
+        return len(c["roots"]) > 1 or c["mode"] == "reduce"
     if c["op"] in ("groupby", "pipeline"):
         return any(a[-1][0] == b[0][0] for a, b in zip(ch[:-1], ch[1:]))
     return False
@@ -365,7 +408,14 @@ def _graph_build(m, nodes):
         else:
             a = built[nd["a"]["node"]] if "node" in nd["a"] else nd["a"]["const"]
             b = built[nd["b"]["node"]] if "node" in nd["b"] else nd["b"]["const"]
-            built.append(uf[nd["f"]](a, b))
+            if nd["f"] == "sum":
+                built.append(np.sum(a))
+            elif nd["f"] == "sumN":
+                built.append(np.mean(a))
+            elif nd["f"] == "hist":
+                built.append(np.histogram(a, bins=list(nd["edges"])))
+            else:
+                built.append(uf[nd["f"]](a, b))
     return built, pulls
 
 
@@ -473,6 +523,24 @@ def impl(c):
             built, pulls = _graph_build(m, c["nodes"])
             v = built[c["root"]].compute()
             return {"v": {"value": [int(x) for x in np.asarray(v).ravel()], "pulls": pulls}}
+        if op == "graph_many":
+            cg = m["cg"]
+            built, pulls = _graph_build(m, c["nodes"])
+            roots = [built[r] for r in c["roots"]]
+            fs = [c["nodes"][r].get("f") for r in c["roots"]]
+            if c["mode"] == "concat":
+                res = cg.compute(list(roots))
+                return {"v": {"vals": [[int(x) for x in np.asarray(v).ravel()] for v in res]}}
+            res = [roots[0].compute()] if len(roots) == 1 else list(cg.compute(tuple(roots)))
+            out = []
+            for f, v in zip(fs, res):
+                if f == "sum":
+                    out.append([int(v)])
+                elif f == "sumN":
+                    out.append(_fl(v))
+                else:
+                    out.append([int(x) for x in v[0]])
+            return {"v": {"vals": out}}
         if op == "graph_reduce":
             cg = m["cg"]
             s = cg.StreamNode(iter([np.array(ch, dtype=int) for ch in c["chunks"]]))
@@ -584,6 +652,28 @@ def oracle(c):
                 else:
                     vals.append([f(a, b)])
         return {"value": vals[c["root"]]}
+    if op == "graph_many":
+        vals = []
+        for nd in c["nodes"]:
+            if nd["k"] == "stream":
+                vals.append(_flat(nd["chunks"]))
+                continue
+            a = vals[nd["a"]["node"]] if "node" in nd["a"] else nd["a"]["const"]
+            b = vals[nd["b"]["node"]] if "node" in nd["b"] else nd["b"]["const"]
+            if nd["f"] in ("sum", "sumN", "hist"):
+                x = a if isinstance(a, list) else [a]
+                vals.append([sum(x)] if nd["f"] == "sum" else [sum(x), len(x)] if nd["f"] == "sumN" else _hist(x, nd["edges"]))
+                continue
+            f = {"add": lambda x, y: x + y, "sub": lambda x, y: x - y, "mul": lambda x, y: x * y}[nd["f"]]
+            if isinstance(a, list) and isinstance(b, list):
+                vals.append([f(x, y) for x, y in zip(a, b)])
+            elif isinstance(a, list):
+                vals.append([f(x, b) for x in a])
+            elif isinstance(b, list):
+                vals.append([f(a, y) for y in b])
+            else:
+                vals.append([f(a, b)])
+        return {"vals": [vals[r] for r in c["roots"]]}
     if op == "graph_reduce":
         r = c["reduce"]
         if r == "sum":
@@ -632,6 +722,9 @@ def _as_value(c, exp):
     """what the implementation's observation should be, from the oracle value"""
     if c["op"] == "mean":
         return _fl(Fraction(exp["sum"], exp["n"] * c["scale"]))
+    if c["op"] == "graph_many" and c["mode"] == "reduce" and isinstance(exp, dict) and "vals" in exp:
+        fs = [c["nodes"][r].get("f") for r in c["roots"]]
+        return {"vals": [(_fl(Fraction(v[0], v[1])) if v[1] else None) if f == "sumN" else v for f, v in zip(fs, exp["vals"])]}
     return exp
 
 
@@ -655,7 +748,14 @@ def agree_model(c, got, m):
     return core.canon(got["v"]) == core.canon(_as_value(c, m))
 
 
+MODEL_PIPELINES = {"pileup_data", "pileup_sum", "mask_sum", "pileup_hist", "under"}
+
+
 def model_request(c):
+    if c["op"] == "pipeline":
+        if c["kind"] not in MODEL_PIPELINES:
+            return None      # values under intervals / merged: implementation vs dense oracle only
+        return {"op": "pipeline", "kind": c["kind"], "sizes": c["sizes"], "chunks": c["chunks"], "bins": c["bins"], "peaks": c["peaks"]}
     if c["op"] == "groupby":
         return {"op": "groupby", "fast": c["fast"], "chunks": c["chunks"]}
     return c
@@ -667,6 +767,8 @@ def finding_key(c, got, exp):
         return "histogram:default-bins"
     if op == "count_kmers1":
         return "count_kmers:k=1"
+    if op == "graph_many":
+        return "graph:" + c["mode"] + ("-raises-" + got["err"] if isinstance(got, dict) and "err" in got else "-wrong-value")
     if op == "graph" and c["nodes"][c["root"]]["k"] == "stream":
         return "graph:root-is-stream"
     if isinstance(got, dict) and "err" in got:
